@@ -2284,6 +2284,7 @@ class C17Run(OnionRun):
             sim.draining = False
             wire0 = (len(self.tor.received), len(self.conn.transport.written))
         ports0, connects0 = len(sim.reactor.all_ports), len(sim.reactor.connect_log)
+        files0, triggers0 = set(os.listdir(self.root)), len(sim.reactor.triggers)
         hsdir = os.path.join(self.root, 'hs_main')
         try:
             if c['form'] == 'constructor':
@@ -2295,7 +2296,10 @@ class C17Run(OnionRun):
                     ('both stealth_auth= and auth=', dict(hidden_service_dir=hsdir, stealth_auth=['alice'], auth=AuthBasic(['bob']))),
                     ('ephemeral=True with the deprecated stealth_auth=', dict(ephemeral=True, stealth_auth=['alice', 'bob'])),
                     ('the deprecated stealth_auth= without a directory (ephemeral implied)', dict(stealth_auth=['alice'])),
-                ][k % 7]
+                    ('private_key for a filesystem service with an implicit directory',
+                     dict(ephemeral=False, private_key=RSA_KEYS[USER_RSA[0]][0])),
+                    ('single_hop for a filesystem service with an implicit directory', dict(ephemeral=False, single_hop=True)),
+                ][(k + (7 if c['n_clients'] == 2 else 0)) % 9]
                 sim.log('op', 'invalid', c['form'], what)
                 TCPHiddenServiceEndpoint(sim.reactor, self.config, c['public_port'], **kw)
             elif c['form'] == 'tor-method':
@@ -2332,6 +2336,11 @@ class C17Run(OnionRun):
             touched.append('a connection was started')
         if wire0 is not None and (len(self.tor.received), len(self.conn.transport.written)) != wire0:
             touched.append('something was written to the control connection')
+        made = sorted(x for x in set(os.listdir(self.root)) - files0 if x not in ('service.key', 'hs_main'))    # (those are ours)
+        if made:
+            touched.append('something was created on disk (%s)' % ', '.join(_tmp_re.sub('tortmp*', x) for x in made))
+        if len(sim.reactor.triggers) != triggers0:
+            touched.append('a system event trigger was registered with the reactor')
         if touched:
             self.fail('C17.invalid-combination-touched-something',
                       'the invalid option combination "%s" (%s form) was refused, but before that %s' % (what, c['form'], ' and '.join(touched)))
